@@ -136,7 +136,18 @@ func runSearches(p *run.Part, ss []*seqx.Search) {
 		s.Run()
 		rows = append(rows, map[string]interface{}{"config": s.Cfg.Name + s.PrefixID, "depth_completed": s.MaxDepth, "depth_bound": s.Depth, "states": s.States, "transitions": s.Transitions, "path_exhaustive_depth": s.ExhaustPaths, "histories_extended_despite_known_state": s.PathsBeyondDedupe})
 		if len(s.Frontier) > 0 {
-			p.Sample(6, map[string]string{"config": s.Cfg.Name + s.PrefixID, "history": seqx.PathString(s.Frontier[len(s.Frontier)/2])})
+			// written-out sample: the frontier history with the most varied operations
+			best, score := s.Frontier[0], -1
+			for _, f := range s.Frontier {
+				seen := map[string]bool{}
+				for _, o := range f {
+					seen[o.String()] = true
+				}
+				if len(seen) > score {
+					best, score = f, len(seen)
+				}
+			}
+			p.Sample(6, map[string]string{"config": s.Cfg.Name + s.PrefixID, "history": seqx.PathString(s.Prefix) + " " + seqx.PathString(best)})
 		}
 	}
 	p.SetExtra("searches", rows)
